@@ -225,6 +225,13 @@ def check_query(case, out):
     out.evals += 1
     if res2 is not RAISED:
         _cmp(out, "bp.query[second]", res2, q2, want2, spec, J, True, evidence, [])
+    # a sum query on an engine that was max-calibrated in between must not use the max-marginal beliefs
+    bp3 = out.call("BeliefPropagation", BeliefPropagation, model)
+    if bp3 is not RAISED and out.call("bp.max_calibrate", bp3.max_calibrate) is not RAISED:
+        res3 = out.call("bp.query[after_max_calibrate]", bp3.query, variables=list(q2), evidence=dict(evidence) or None, joint=True, show_progress=False)
+        out.evals += 1
+        if res3 is not RAISED:
+            _cmp(out, "bp.query[after_max_calibrate]", res3, q2, want2, spec, J, True, evidence, [])
     # agreement with variable elimination on the same model
     ve = out.call("VariableElimination", VariableElimination, model)
     if ve is not RAISED and res is not RAISED and case["joint"]:
